@@ -42,6 +42,20 @@ def id_scenarios(rng, n):
             sc['ops'] += [{'op': 'set', 'what': what, 'value': not cur[what]}, extra]
             for op in sc['ops']:
                 op.pop('worker_lifespan', None)
+        if rng.random() < .12:
+            # threads cannot be killed: a call fails while a sibling task still runs for seconds; the pool is used again at once.
+            # The old worker thread must be gone before an instance with the same id starts
+            sc['pool']['start_method'] = 'threading'
+            sc['pool']['n_jobs'] = max(2, sc['pool']['n_jobs'])
+            sc['pool'].pop('keep_alive', None)
+            nn = rng.randint(4, 8)
+            bad = rng.randrange(2)
+            first = {'op': rng.choice(['map', 'map_unordered']), 'n': nn, 'chunk_size': 1, 'elem': 'scalar', 'fail': {'at': [bad], 'exc': 'ValueError'},
+                     'dur': {'kind': 'map', 'map': {str(1 - bad): rng.choice([3.0, 6.0])}, 'default': 0.0}}
+            second = {'op': 'map', 'n': rng.randint(6, 12), 'chunk_size': 1, 'elem': 'scalar', 'dur': {'kind': 'hash', 'salt': rng.randint(0, 99), 'unit': 0.05}}
+            sc['ops'] = [first, second]
+            sc['all_valid'] = False
+            sc['same_func'] = False
         scs.append(sc)
     return scs
 
